@@ -405,8 +405,12 @@ def proxy_proof_gate(
         # this catches header injection without a separate multi-value API.
         raw = req.get_header(PROOF_HEADER)
         try:
-            if not raw:
+            if raw is None:
                 raise ProofError("no_proof", "header absent")
+            if not raw:
+                # Spec §6 step 2: a header that is present but empty is
+                # malformed, not absent.
+                raise ProofError("malformed", "empty proof header")
             if "," in raw:
                 raise ProofError("malformed", "multiple proof headers")
             return verify_proof(
